@@ -39,7 +39,7 @@ def generate(tier, seed):
     n = {"quick": 40, "thorough": 400}[tier]
     cases = []
     for rep in range(n):
-        for chk in ("embedding", "cov_used", "haversine", "temporal", "rotation", "srf_twin", "fit", "bins"):
+        for chk in ("embedding", "cov_used", "haversine", "temporal", "rotation", "srf_twin", "fit", "bins") + (("units",) if rep % 4 == 0 else ()):
             cases.append((chk, {"cseed": int(rng.integers(1 << 30)), "geo_scale": float(rng.choice(GEO)), "temporal": bool(rng.random() < 0.4),
                                 "name": str(rng.choice(LL_MODELS)), "time_anis": round(float(np.exp(rng.uniform(math.log(0.01), math.log(100)))), 4)}))
     return cases
@@ -364,6 +364,49 @@ def check_fit(ctx, c):
             return
 
 
+def check_units(ctx, c):
+    """The same lat-lon data analysed in another distance unit (geo_scale): every length comes out scaled by the unit, every field
+    and variance is unchanged - through the estimator, the fit, and kriging with fit_variogram=True."""
+    rng = np.random.default_rng(c["cseed"])
+    R = c["geo_scale"]
+    if R == 1.0:
+        R = 111.19  # any other unit
+    n = int(rng.integers(40, 80))
+    cp = np.array([rng.uniform(-60, 60, size=n), rng.uniform(-170, 170, size=n)])
+    tp = np.array([rng.uniform(-60, 60, size=7), rng.uniform(-170, 170, size=7)])
+    name = str(rng.choice(["Exponential", "Gaussian", "Spherical"]))
+    with warnings.catch_warnings():
+        warnings.simplefilter("ignore")
+        truth = gs.Exponential(latlon=True, var=1.0, len_scale=0.4)
+        cv = np.asarray(gs.SRF(truth, seed=int(rng.integers(1, 1 << 20)), mode_no=128)(cp))
+        out = {}
+        for unit in (1.0, R):
+            m = getattr(gs, name)(latlon=True, geo_scale=unit, var=0.8, len_scale=0.25 * unit)
+            try:
+                k = gs.krige.Ordinary(m, cp, cv, fit_variogram=True)
+            except (RuntimeError, ValueError):
+                ctx.discard("variogram fit failed")
+                return
+            f, v = k(tp)
+            bc, gam = gs.vario_estimate(cp, cv, latlon=True, geo_scale=unit)
+            out[unit] = (float(k.model.len_scale), float(k.model.var), float(k.model.nugget), np.asarray(f), np.asarray(v), np.asarray(bc), np.asarray(gam))
+    ctx.event("unit_equivariance_compared")
+    ctx.cell(f"units/{name}/R={R:g}")
+    a, b = out[1.0], out[R]
+    mech = {"what": "geo_scale-unit-equivariance", "model": name}
+    if not np.allclose(b[5], a[5] * R, rtol=1e-10) or not np.allclose(b[6], a[6], rtol=1e-10, atol=1e-12, equal_nan=True):
+        ctx.fail(dict(mech, part="vario_estimate"), f"bin centres / variogram do not scale with the unit {R}: {b[5][:3]} vs {a[5][:3] * R}")
+        return
+    if not abs(b[0] - a[0] * R) <= 5e-3 * a[0] * R:  # two optimiser runs in different units: default curve_fit tolerances
+        ctx.fail(dict(mech, part="krige-fit-len_scale"), f"Krige(fit_variogram=True): fitted len_scale {b[0]!r} in units of {R}, {a[0]!r} in radians (expected ratio {R}, got {b[0] / a[0]:.6g})")
+        return
+    if not (abs(b[1] - a[1]) <= 5e-3 * max(a[1], 1e-3) and abs(b[2] - a[2]) <= 5e-3 * max(a[1], 1e-3)):
+        ctx.fail(dict(mech, part="krige-fit-var"), f"fitted var/nugget depend on the unit: {b[1:3]} vs {a[1:3]}")
+        return
+    if not (common.maxabs(b[3] - a[3]) <= 2e-2 * max(1.0, common.maxabs(a[3])) and common.maxabs(b[4] - a[4]) <= 2e-2 * max(1.0, common.maxabs(a[4]))):
+        ctx.fail(dict(mech, part="krige-field"), f"kriged field / variance depend on the unit: max diff {common.maxabs(b[3] - a[3]):.3e} / {common.maxabs(b[4] - a[4]):.3e}")
+
+
 def check_bins(ctx, c):
     rng = np.random.default_rng(c["cseed"])
     R = c["geo_scale"]
@@ -390,4 +433,4 @@ def check_bins(ctx, c):
 
 
 CHECKS = {"embedding": check_embedding, "cov_used": check_cov_used, "haversine": check_haversine, "temporal": check_temporal,
-          "rotation": check_rotation, "srf_twin": check_srf_twin, "fit": check_fit, "bins": check_bins}
+          "rotation": check_rotation, "srf_twin": check_srf_twin, "fit": check_fit, "bins": check_bins, "units": check_units}
